@@ -83,6 +83,17 @@ def run(ck, rng):
         for name, rop, mop in pairs:
             cases.append("hist " + ";".join(build + [rop, mop]))
             meta.append((name + ("_dep" if dep else ""), items, "pair"))
+        if rng.random() < 0.35:
+            # deprecated aliases behave identically to the functions that replace them (every entry point, custom options)
+            br = rng.choice([None] + list(range(len(items))))
+            bb = "-" if br is None else str(br)
+            al = rng.choice([("O,0,%s,0,%s,-" % (enc, bf_csv(bf)), "Od,0,%s,0,%s,-" % (enc, bf_csv(bf))),
+                             ("W,0,%s,%s" % (bf_csv(bf), kk), "Wd,0,%s,%s" % (bf_csv(bf), kk)),
+                             ("I,0,%s,%s" % (bf_csv(bf), bb), "Id,0,%s,%s" % (bf_csv(bf), bb)),
+                             ("o,%s,0,0,%s,-,%s" % (enc, bf_csv(bf), hx(doc)), "od,%s,0,0,%s,-,%s" % (enc, bf_csv(bf), hx(doc))),
+                             ("w,%s,%s,%s" % (bf_csv(bf), kk, hx(doc)), "wd,%s,%s,%s" % (bf_csv(bf), kk, hx(doc)))])
+            cases.append("hist " + ";".join(build + [al[0], al[1]]))
+            meta.append(("alias_" + al[0][0], items, "pair"))
         if rng.random() < 0.3:
             # guards: nil node, non-root node; nothing may be written
             nonroot = rng.randrange(1, max(2, len([o for o in build if o[0] in "RA"])))
